@@ -74,3 +74,20 @@ Definition engine_table (d : nat) (ic : bool) (pat : bytes) (line : bytes) : lis
          engine_cuts d ic pat ln nb + snd a) in
       add false (add true acc))
     ([], 0) (suffixes 0 line).
+
+(* ---------------------------------------------------------------------------------------------- *)
+(* vocabulary of the RE_NOTBOL theorems (SubstNotbol.v).  The flags of one search, re->flg | regexec's flags, as rset_find
+   composes them from what rstr_find hands over (nb ? RE_NOTBOL : 0): *)
+Definition search_flags (rs : rset) (nb : bool) : Z :=
+  Z.lor (rs_cflg rs) (Z.lor REG_NEWLINE (Z.lor (if has (nbflag nb) RE_NOTBOL then REG_NOTBOL else 0%Z)
+                                               (if has (nbflag nb) RE_NOTEOL then REG_NOTEOL else 0%Z))).
+(* regexec's attempt at the first byte of the searched text, made WITHOUT the flag *)
+Definition first_attempt (d : nat) (rs : rset) (ln : bytes) : out st * N :=
+  re_recmatch d (code (rs_prog rs)) (search_flags rs false) ln 0.
+(* "no match of the pattern at the first byte of the searched text needs ^ to hold there": the attempt there fails even
+   though ^ may match, or the match it reports is reached by a choice path that is also a path of the semantics under
+   RE_NOTBOL (no ^ atom is passed at offset 0 -- e.g. the match comes from an unanchored alternative) *)
+Definition start_indifferent (d : nat) (rs : rset) (ln : bytes) : Prop :=
+  (exists c, first_attempt d rs ln = (Fail, c)) \/
+  (exists cs r c, first_attempt d rs ln = (Found cs r, c) /\
+     path st (atom_step (search_flags rs true) ln) mark_step (code (rs_prog rs)) 0 (0%nat, repeat (-1)%Z nmarks) cs r).
